@@ -308,6 +308,9 @@ def _solve_cli(idx, text, t0):
 
 
 _POOL_OBS: List[Obligation] = []
+_OPEN_COUNT = None  # shared counter of obligations left open in this discharge() call
+OPEN_BEFORE_CUT = int(os.environ.get("PYVC_OPEN_BEFORE_CUT", "3"))
+CUT_DIV = 10
 
 
 def _rlimit_of(s):
@@ -372,11 +375,17 @@ def _solve_group(idxs):
             st, mt = "unknown", ""
             try:
                 div = LOW_BUDGET_DIV if getattr(ob, "low_budget", False) else 1
+                if _OPEN_COUNT is not None and _OPEN_COUNT.value >= OPEN_BEFORE_CUT:
+                    # the verdict of this run is already "not all discharged"; the remaining obligations are
+                    # still tried (they are listed in the report) but on a small budget
+                    div = max(div, CUT_DIV)
                 if backend == "z3-5.1":
                     st, mt = _check_goal(ob.pc, ob.goal, {}, WALL_GUARD_MS, Z3_RLIMIT // div)
                 elif backend == "z3-5.1-mbqi":
                     st, mt = _check_goal(ob.pc, ob.goal, {"smt.ematching": False}, WALL_GUARD_MS, Z3_RLIMIT_MBQI // div)
                 elif div > 1 and backend == "z3-4.8":
+                    continue
+                elif div >= CUT_DIV and backend == "cvc5-1.0":
                     continue
                 else:
                     text = text or to_smt2(ob)
@@ -394,6 +403,9 @@ def _solve_group(idxs):
             if st != "unknown":
                 res = (idx, st, backend, (time.time() - t0) * 1000, mt, used)
                 break
+        if (res is None or res[1] != "discharged") and not getattr(ob, "low_budget", False) and _OPEN_COUNT is not None:
+            with _OPEN_COUNT.get_lock():
+                _OPEN_COUNT.value += 1
         out.append(res or (idx, "unknown", "", (time.time() - t0) * 1000, "; ".join(reasons), used))
     return out
 
@@ -419,6 +431,8 @@ def discharge(obligations: List[Obligation], procs: int = 0, low_budget=None):
     if low_budget:
         for ob in obligations:
             ob.low_budget = bool(low_budget(ob.name))
+    global _OPEN_COUNT
+    _OPEN_COUNT = mp.get_context("fork").Value("i", 0)
     _POOL_OBS = obligations
     if procs == 1 or len(tasks) < 2:
         results = [_solve_group(t) for t in tasks]
